@@ -34,7 +34,7 @@ def declare(rep):
 
 
 def grid_fns(prog):
-    return [f for f in prog.repo_functions() if GRID_RE.match(f.get("cls") or "") and isinstance(f.get("body"), dict)]
+    return [f for f in prog.repo_functions() if GRID_RE.match(f.get("cls") or "") and isinstance(f.get("body"), dict) and not prog.fully_inlined(f)]
 
 
 def axis_of_count(sym_name):
@@ -65,20 +65,35 @@ def is32(t):
 
 
 def flatten(rep, prog, fn):
+    from ..model import def_chain
     fi = prog.index(fn)
+    cands = []
     for n in walk(fn["body"]):
-        if n.get("k") != "Var" or not isinstance(n.get("init"), dict):
-            continue
-        init = n["init"]
-        fields = {x["ref"]["name"] for x in walk(init) if x.get("k") == "MemberExpr" and x["ref"].get("dk") == "Field"}
+        if n.get("k") == "Var" and isinstance(n.get("init"), dict) and re.search(r"\b(long|size_t|int|unsigned)\b", n.get("t", "")):
+            cands.append((n, n["init"]))
+        elif n.get("k") == "ReturnStmt" and isinstance(n.get("value"), dict) and re.search(r"\b(long|size_t|int|unsigned)\b", strip(n["value"]).get("t", "") or n["value"].get("t", "")):
+            cands.append((n, n["value"]))
+    seen_forms = set()
+    for n, init in cands:
+        chain = list(def_chain(fn, init))
+        fields = {x["ref"]["name"] for d_ in chain for x in walk(d_) if x.get("k") == "MemberExpr" and x["ref"].get("dk") == "Field"}
         if not ({"nb_voxels_x_", "nb_voxels_y_"} <= fields):
             continue
-        muls = [x for x in walk(init) if x.get("k") == "BinaryOperator" and x.get("op") == "*"]
+        muls = [x for d_ in chain for x in walk(d_) if x.get("k") == "BinaryOperator" and x.get("op") == "*"]
         if not muls:
+            continue
+        # a local that merely abbreviates part of a flattening (nx*ny, a row offset) is judged where it is used
+        if n.get("k") == "Var" and any(x.get("k") == "DeclRefExpr" and x["ref"].get("did") == n.get("did") for (m_, i_) in cands if m_ is not n for d_ in def_chain(fn, i_) for x in walk(d_)):
             continue
         ev = S.SymEval(prog, fn, lazy_scalars=True)
         try:
-            v = sp.expand(sp.sympify(ev.ev(init)))
+            v = sp.sympify(ev.ev(init))
+            for _ in range(4):
+                v2, ch = ev.expand_once(v)
+                if not ch:
+                    break
+                v = v2
+            v = sp.expand(v)
         except S.Decline as e:
             raise AnalysisBroken("%s: %s" % (prog.loc(fn, n), e))
         nx, ny, nz = [ev.sym("this.nb_voxels_%s_" % a) for a in "xyz"]
@@ -102,8 +117,11 @@ def flatten(rep, prog, fn):
                           "%s has the normal form %s, not x + y*nx + z*nx*ny over three distinct indices: two voxels share a slot or a slot is never addressed" % (short(n, 100), v))
             continue
         axes = [index_axis(prog, fn, fi, ev, s_, n) for s_ in (a, b, c)]
+        if None in axes:
+            rep.note("%s: the axis of an index of %s could not be established (bound computed out of sight); flattening not decided" % (prog.loc(fn, n), short(n, 60)))
+            continue
         if axes == ["x", "y", "z"]:
-            rep.ok("C20.flatten-form", prog, fn, n, "%s == x + y*nx + z*nx*ny with (x,y,z) = (%s,%s,%s)" % (n["name"], clean(a), clean(b), clean(c)))
+            rep.ok("C20.flatten-form", prog, fn, n, "%s == x + y*nx + z*nx*ny with (x,y,z) = (%s,%s,%s)" % (n.get("name", "returned index"), clean(a), clean(b), clean(c)))
         else:
             rep.violation("C20.flatten-form", prog, fn, n, "flattening pairs indices with the wrong axes",
                           "%s uses (%s,%s,%s) as (x,y,z) but these indices are bounded by the counts of axes %s" % (short(n, 90), clean(a), clean(b), clean(c), axes))
@@ -142,6 +160,15 @@ def index_axis(prog, fn, fi, ev, symb, site):
                                 return axes.pop()
                         except (S.Decline, KeyError, IndexError):
                             pass
+                        # the bound is computed elsewhere (a helper lambda, a structured binding): the voxel count its definition mentions
+                        from ..model import def_chain
+                        axes = set()
+                        for d_ in def_chain(fn, l["cond"], depth=5):
+                            for x_ in walk(d_):
+                                if x_.get("k") == "MemberExpr" and x_["ref"].get("dk") == "Field" and axis_of_count(x_["ref"]["name"]):
+                                    axes.add(axis_of_count(x_["ref"]["name"]))
+                        if len(axes) == 1:
+                            return axes.pop()
         # structured binding of get_3d_voxel_index(...) / plain local
         d = ev._var_decl(did)
         if isinstance(d, tuple) and d[0] == "binding":
@@ -390,6 +417,36 @@ def _site_axis_prefix(n):
     return None, None
 
 
+def _semantic_clamp(prog, fn, fi, n, axis, prefix):
+    """Is the value in which the quantisation n ends (the largest expression around it, through casts / conditionals / min) of the
+    form min(<something containing the quantisation>, nb_voxels_axis - 1)?  Decided on the symbolic value, so std::min, a
+    conditional expression and an inlined helper with an if are all the same thing. Returns the top expression node or None."""
+    top = n
+    for p, slot, ch in fi.ancestors(n):
+        k = p.get("k")
+        if k in CASTS or k in ("ConditionalOperator", "BinaryOperator", "ParenExpr") or (k == "CallExpr" and p.get("callee") in ("std::min", "std::max")):
+            if k == "BinaryOperator" and p.get("op") in ("=", ",", "+=", "-="):
+                break
+            top = p
+            continue
+        break
+    if top is n:
+        return None
+    try:
+        ev = S.SymEval(prog, fn)
+        v = sp.sympify(ev.ev(top))
+    except (S.Decline, TypeError, sp.SympifyError):
+        return None
+    if not isinstance(v, sp.Min):
+        return None
+    field = ("this." if not prefix else "this." + prefix) + "nb_voxels_%s_" % axis
+    last = ev.sym(field) - 1
+    for a in v.args:
+        if sp.simplify(a - last) == 0 and any("floor" in str(o) for o in v.args if o is not a):
+            return top
+    return None
+
+
 def _clamp_of(fi, n):
     """the std::min(...) call that directly limits the value of n (through casts only), with its other argument"""
     cur = n
@@ -439,6 +496,17 @@ def index_within_count(rep, prog):
             if axis is None:
                 continue       # not a voxel quantisation of a grid with an origin field (reported by C20.quantisation)
             parent, other = _clamp_of(fi, n)
+            if other is None:
+                topx = _semantic_clamp(prog, fn, fi, n, axis, prefix)
+                if topx is not None:
+                    rep.ok(rule, prog, fn, n, "the value %s evaluates to min(floor(...), %snb_voxels_%s_ - 1): limited to the last voxel of axis %s" % (short(topx, 50), prefix, axis, axis))
+                    for p, slot, ch in fi.ancestors(topx):
+                        if p.get("k") in CASTS:
+                            continue
+                        if p.get("k") == "Var":
+                            clamped_vars[p["did"]] = (axis, prefix)
+                        break
+                    continue
             if other is not None:
                 if _is_last_voxel(other, axis, prefix):
                     rep.ok(rule, prog, fn, n, "min(%s, %snb_voxels_%s_ - 1): limited to the last voxel of axis %s" % (short(n, 60), prefix, axis, axis))
